@@ -146,6 +146,44 @@ var c09Paths = []c09Path{
 		}
 		return destTypes(ls.Destination())
 	}},
+	{"lease_set2.ReadLeaseSet2.Destination[offline keys]", "dest", func(id []byte, _ refmodel.KeysAndCert, sig, _ int) (int, int, bool) {
+		ls, _, err := lease_set2.ReadLeaseSet2(c09LS2Flags(id, sig, 1))
+		if err != nil {
+			return 0, 0, false
+		}
+		return destTypes(ls.Destination())
+	}},
+	{"lease_set2.ReadLeaseSet2.Destination[unpublished+blinded]", "dest", func(id []byte, _ refmodel.KeysAndCert, sig, _ int) (int, int, bool) {
+		ls, _, err := lease_set2.ReadLeaseSet2(c09LS2Flags(id, sig, 6))
+		if err != nil {
+			return 0, 0, false
+		}
+		return destTypes(ls.Destination())
+	}},
+	{"lease_set2.ReadLeaseSet2.Destination[offline+unpublished+blinded]", "dest", func(id []byte, _ refmodel.KeysAndCert, sig, _ int) (int, int, bool) {
+		ls, _, err := lease_set2.ReadLeaseSet2(c09LS2Flags(id, sig, 7))
+		if err != nil {
+			return 0, 0, false
+		}
+		return destTypes(ls.Destination())
+	}},
+	{"meta_leaseset.ReadMetaLeaseSet.Destination[offline keys]", "dest", func(id []byte, _ refmodel.KeysAndCert, sig, _ int) (int, int, bool) {
+		b := append([]byte(nil), id...)
+		b = append(b, c09Header(sig, 1)...)
+		b = append(b, 2)
+		for i := 0; i < 2; i++ {
+			b = append(b, refmodel.Fill("c09me", uint64(i), 32)...)
+			b = append(b, 3)
+			b = append(b, refmodel.BE(gen.LeaseEndSec, 4)...)
+			b = append(b, 0, 0, 0)
+		}
+		b = append(b, make([]byte, 64)...)
+		m, _, err := meta_leaseset.ReadMetaLeaseSet(b)
+		if err != nil {
+			return 0, 0, false
+		}
+		return destTypes(m.Destination())
+	}},
 	{"meta_leaseset.ReadMetaLeaseSet.Destination", "dest", func(id []byte, _ refmodel.KeysAndCert, sig, _ int) (int, int, bool) {
 		b := append([]byte(nil), id...)
 		b = append(b, refmodel.BE(gen.Published, 4)...)
@@ -238,16 +276,33 @@ var c09Paths = []c09Path{
 	}},
 }
 
-func c09LS2(id []byte, sig int) []byte {
-	b := append([]byte(nil), id...)
-	b = append(b, refmodel.BE(gen.Published, 4)...)
+func c09LS2(id []byte, sig int) []byte { return c09LS2Flags(id, sig, 0) }
+
+// c09Header: published, expires, flags (+ a well-formed-by-length offline block when bit 0 is set), empty options.
+func c09Header(sig int, flags uint16) []byte {
+	b := refmodel.BE(gen.Published, 4)
 	b = append(b, refmodel.BE(600, 2)...)
-	b = append(b, 0, 0, 0, 0) // flags, empty options
+	b = append(b, refmodel.BE(uint64(flags), 2)...)
+	if flags&1 != 0 {
+		b = append(b, refmodel.BE(gen.OfflineExp, 4)...)
+		b = append(b, 0, 7)
+		b = append(b, gen.Key(7, 93).Pub...)
+		b = append(b, make([]byte, siglen(sig))...)
+	}
+	return append(b, 0, 0)
+}
+
+func c09LS2Flags(id []byte, sig int, flags uint16) []byte {
+	b := append([]byte(nil), id...)
+	b = append(b, c09Header(sig, flags)...)
 	b = append(b, 1, 0, 4, 0, 32)
 	b = append(b, refmodel.Fill("c09k", 1, 32)...)
 	b = append(b, 2)
 	for i := 0; i < 2; i++ {
 		b = append(b, refmodel.Lease2{Hash: [32]byte{1}, TunnelID: 1, EndSec: gen.LeaseEndSec}.Bytes()...)
+	}
+	if flags&1 != 0 {
+		return append(b, make([]byte, 64)...) // signed by the (Ed25519) transient key
 	}
 	return append(b, make([]byte, siglen(sig))...)
 }
@@ -284,7 +339,7 @@ func c09ViaELS(inner []byte) (int, int, bool) {
 
 func runC09(r *core.Run) {
 	r.Level = "model_checking"
-	r.Rule = "every API path that yields a Destination or RouterIdentity (16 paths: direct readers, pointer wrappers, constructors fed from ReadKeysAndCert and from NewKeysAndCert, the legacy LeaseSet reader, LeaseSet2 / MetaLeaseSet / RouterInfo embedding, AsDestination, compressible-padding constructor, decrypted inner LeaseSet2) x the full product of all known + boundary signing codes (21) and crypto codes (14) x KEY certificates with 0, 1 and 5 extra payload bytes, plus each axis over all 65,536 codes with the other axis at a permitted value for the four cheap reader paths. Oracle: path success => declared types not prohibited for that kind (independent table); every permitted pair the library can represent succeeds on every path. states = (path, pair) combinations, transitions = API calls. non-trivial = distinct (path, pair) on which the path succeeded"
+	r.Rule = "every API path that yields a Destination or RouterIdentity (20 paths: direct readers, pointer wrappers, constructors fed from ReadKeysAndCert and from NewKeysAndCert, the legacy LeaseSet reader, LeaseSet2 (flags 0, offline keys, unpublished+blinded, all three) / MetaLeaseSet (with and without offline keys) / RouterInfo embedding, AsDestination, compressible-padding constructor, decrypted inner LeaseSet2) x the full product of all known + boundary signing codes (21) and crypto codes (14) x KEY certificates with 0, 1 and 5 extra payload bytes, plus each axis over all 65,536 codes with the other axis at a permitted value for the four cheap reader paths. Oracle: path success => declared types not prohibited for that kind (independent table); every permitted pair the library can represent succeeds on every path. states = (path, pair) combinations, transitions = API calls. non-trivial = distinct (path, pair) on which the path succeeded"
 	sigCodes := []int{0, 1, 2, 3, 4, 5, 6, 7, 8, 9, 10, 11, 12, 20, 21, 255, 256, 65280, 65534, 65535}
 	crCodes := []int{0, 1, 2, 3, 4, 5, 6, 7, 8, 255, 256, 65280, 65534, 65535}
 	check := func(p c09Path, sig, cr int, extra []byte) {
